@@ -168,6 +168,13 @@ def cases(tier, seed):
                 if how == "Set_C_keepS" and split in STRESS_BASED:
                     continue  # update_S=False leaves the compliance of the previous law in place: splits built on S are undefined there
                 out.append({"kind": "setC", "split": split, "simp": simp, "how": how})
+    for cfg in configs():
+        if cfg["dom"] == "strain":
+            out.append({"kind": "dtype", **cfg})
+    # ... and the constants of a live isotropic material changed through their setters (every split, every dimension mode)
+    for split in ALL_SPLITS:
+        for simp in ("PE", "PS", "3D"):
+            out.append({"kind": "setC", "split": split, "simp": simp, "how": "setE"})
     for cfg in hist_configs(tier):
         for l1 in LOADS:
             out.append({"kind": "hist", **cfg, "l1": l1, "depth": _hist_depth(tier)})
@@ -574,21 +581,35 @@ def _run_setC(case):
     from EasyFEA import Models
 
     split, simp, how = case["split"], case["simp"], case["how"]
-    cfg = {"split": split, "simp": simp, "mat": "aniso", "dom": "strain"}
+    matname = "iso" if how == "setE" else "aniso"
+    cfg = {"split": split, "simp": simp, "mat": matname, "dom": "strain"}
     dim = 3 if simp == "3D" else 2
-    C = ref_C("aniso", simp)
+    C = ref_C(matname, simp)
     n = C.shape[0]
     r = rng("c17setC", simp)
-    B = r.normal(size=(n, n))
-    C0 = B @ B.T + n * np.eye(n)  # the stiffness the model starts with
-    material = Models.Elastic.Anisotropic(dim, C0.copy(), False)
+    if how == "setE":
+        # an isotropic material whose constants are changed through their setters on the live object (the model was built around it)
+        E0, v0 = 1.7 * E_ISO, 0.6 * V_ISO + 0.05
+        mu0 = E0 / (2 * (1 + v0))
+        lam0 = E0 * v0 / (1 - v0 ** 2) if simp == "PS" else E0 * v0 / ((1 + v0) * (1 - 2 * v0))
+        I = np.zeros(n)
+        I[:dim] = 1.0
+        C0 = lam0 * np.outer(I, I) + 2 * mu0 * np.eye(n)
+        material = Models.Elastic.Isotropic(dim, E=E0, v=v0, planeStress=(simp == "PS"), thickness=1.0)
+    else:
+        B = r.normal(size=(n, n))
+        C0 = B @ B.T + n * np.eye(n)  # the stiffness the model starts with
+        material = Models.Elastic.Anisotropic(dim, C0.copy(), False)
     model = Models.PhaseField(material, split, "AT2", 1.0, 0.5, "History")
     L = letters(dim)
-    base = dict(split=split, simp=simp, mat="aniso", dom="strain", how=how)
+    base = dict(split=split, simp=simp, mat=matname, dom="strain", how=how)
     v, obs, ntr = [], [], 0
     for stage, Cs in (("initial", C0), (how, C)):
         if stage != "initial":
-            if how == "Set_C":
+            if how == "setE":
+                material.E = E_ISO
+                material.v = V_ISO
+            elif how == "Set_C":
                 material.Set_C(C.copy(), False)
             else:
                 material.Set_C(C.copy(), False, update_S=False)
@@ -616,6 +637,9 @@ def _run_setC(case):
                                                   f"(scale {nC * ne:.3e})", **key))
             if abs(pP + pM - 0.5 * e @ sig) > TOL_PART * 10 * 0.5 * nC * ne ** 2:
                 v.append(viol("partition_energy", f"{_cfgname(cfg)} after {stage}: |psi+ + psi- - eps:C:eps/2| = {abs(pP + pM - 0.5 * e @ sig):.3e}", **key))
+            if how == "setE" and stage != "initial":
+                vv, _ = check_point(cfg, Cs, e, got, (0, 0), key)  # the reference split of the law now in force
+                v.extend(x for x in vv if x["key"]["check"] in ("psi_reference", "positive_part"))
     v = _dedupe(v)[:12]
     return {"violations": v, "fingerprint": fp("setC", split, simp, how, np.nan_to_num(np.concatenate(obs))), "nontrivial": True,
             "transitions": ntr, "outcome": "ok" if not v else "violation"}
@@ -866,5 +890,38 @@ def _run_hist(case):
             "nontrivial": nontriv, "transitions": ntr, "states": len(set(fps)), "outcome": "ok" if not v else "violation"}
 
 
+def _run_dtype(case):
+    """the strain handed in as an integer-typed (and single-precision) array with integer values: same parts as for the float64 copy"""
+    cfg = {k: case[k] for k in ("split", "simp", "mat", "dom")}
+    dim = 3 if cfg["simp"] == "3D" else 2
+    model, C = make_model(cfg["split"], cfg["simp"], cfg["mat"])
+    states = [[2, -1, 3], [-3, 1, 2], [1, 2, -1]] if dim == 2 else [[2, -1, 1, 3, -2, 1], [-3, 2, 1, 1, 2, -1], [1, -2, 4, -1, 1, 3]]
+    base = dict(split=cfg["split"], simp=cfg["simp"], mat=cfg["mat"], dom=cfg["dom"], kind="dtype")
+    v, obs, ntr = [], [], 0
+    ei = np.array(states, dtype=np.int64).reshape(len(states), 1, -1)
+    ref = call_api(model, ei.astype(float), True)
+    ntr += ref["calls"]
+    for dt in (np.int64, np.int32, np.float32):
+        try:
+            got = call_api(model, ei.astype(dt), True)
+        except Exception as err:
+            v.append(viol("dtype_raises", f"{_cfgname(cfg)}: strain given as {np.dtype(dt).name} raised {type(err).__name__}: {str(err)[:120]}", dtype=np.dtype(dt).name, **base))
+            continue
+        ntr += got["calls"]
+        for k in ("cP", "cM", "sP", "sM", "pP", "pM"):
+            a, b = got[k], ref[k]
+            fin = np.isfinite(b)
+            sc = max(np.abs(b[fin]).max() if fin.any() else 0.0, 1e-300)
+            e = np.abs(np.where(fin, a - b, 0.0)).max() / sc
+            if e > (1e-5 if dt is np.float32 else 1e-12) or not np.array_equal(np.isfinite(a), fin):
+                v.append(viol("dtype_value", f"{_cfgname(cfg)}: {k} for the strain given as {np.dtype(dt).name} differs from the float64 copy of the same values by {e:.3e}",
+                              dtype=np.dtype(dt).name, quantity=k, **base))
+                break
+    obs = np.nan_to_num(np.concatenate([ref["pP"].ravel(), ref["pM"].ravel()]))
+    return {"violations": _dedupe(v), "fingerprint": fp("dtype", cfg, obs), "nontrivial": True, "transitions": ntr, "outcome": "ok" if not v else "violation"}
+
+
 def run_case(case):
+    if case["kind"] == "dtype":
+        return _run_dtype(case)
     return globals()["_run_" + case["kind"]](case)
